@@ -372,6 +372,11 @@ def analyse_chain(lib, f):
             sc = strip_refs(tw[2][0])
             if q.is_call(sc, 'scan') and len(sc[2]) == 3:
                 chain = (bi, tw, sc)
+            elif (q.is_call(sc, 'iter') or q.is_call(sc, 'into_iter')) and sc[2] and q.find_sub(sc[2][0], lambda x: x[0] == 'field' and strip_refs(x[1])[0] in ('param', 'deref')) is not None:
+                # take_while straight over the stored weights: each *single* weight is compared, nothing accumulates
+                pred, pcf, _ = q.closure_pred(lib, tw[2][1])
+                if pred is not None and pcf is not None and not any(st_['rv'].get('r') == 'bin' and st_['rv'].get('op') in ('Add', 'Sub') for b_ in pcf.blocks for st_ in b_['stmts'] if st_['s'] == 'assign'):
+                    return 'bad', 'the prefix is taken while a single weight (not the cumulative bound) compares with the variate: `weights.iter().take_while(|w| w < u).count()` is exact for two actions only'
     if chain is None:
         raise Unrecognised('no scan/take_while/count chain')
     bi, tw, sc = chain
